@@ -57,6 +57,9 @@ def gen_cases(tier, seed):
         for s, typ, st in itertools.product(SINUS, ('rate', 'increment'), STAMPS):
             cases.append(dict(kind='sinus', s=s, type=typ, stamps=st, ladder=ladder, phase=0.41 * ph,
                               t0=0.3))
+        for layout, typ, st in itertools.product(('accel_first', 'extra_leading', 'interleaved'), ('rate', 'increment'), STAMPS):
+            cases.append(dict(kind='linear', a='generic', b='generic', c='generic', d='generic', type=typ, stamps=st,
+                              ladder=ladder, t0=0.3 + 0.05 * ph, layout=layout))
     return cases
 
 
@@ -77,7 +80,7 @@ def build_signals(case):
     return w, f
 
 
-def evaluate(w, f, typ, stamps, T, t0):
+def evaluate(w, f, typ, stamps, T, t0, layout='canonical'):
     """Errors of the real increments against the exact ones, max over the intervals."""
     from pyins import strapdown
     t = t0 + np.concatenate([[0.0], np.cumsum(stamps)]) * T
@@ -87,6 +90,14 @@ def evaluate(w, f, typ, stamps, T, t0):
         tp = np.concatenate([[t[0] - (t[1] - t[0])], t[:-1]])
         data = np.array([np.hstack([w.integral(a, b), f.integral(a, b)]) for a, b in zip(tp, t)])
     imu = pd.DataFrame(data, index=pd.Index(t, name='time'), columns=IMU_COLS)
+    # column layouts of the Imu table: the columns are named, their position carries no meaning
+    if layout == 'accel_first':
+        imu = imu[IMU_COLS[3:] + IMU_COLS[:3]]
+    elif layout == 'extra_leading':
+        imu.insert(0, 'temperature', 20.0 + np.arange(len(imu)))
+    elif layout == 'interleaved':
+        imu = imu[['gyro_x', 'accel_x', 'gyro_y', 'accel_y', 'gyro_z', 'accel_z']]
+        imu['status'] = 1.0
     before = imu.values.copy()
     inc = strapdown.compute_increments_from_imu(imu, typ)
     struct = []
@@ -119,7 +130,7 @@ def run_case(case):
     errs, floors = [], []
     viol = []
     for T in ladder:
-        e, scale, struct = evaluate(w, f, case['type'], stamps, T, case['t0'])
+        e, scale, struct = evaluate(w, f, case['type'], stamps, T, case['t0'], case.get('layout', 'canonical'))
         for s in struct:
             viol.append(dict(sig='c15-structure', msg=s))
         errs.append(e)
@@ -167,6 +178,6 @@ def run_case(case):
     for v in viol:
         first.setdefault(v['sig'], v)
     key = repr((case['kind'], case.get('a'), case.get('b'), case.get('c'), case.get('d'), case.get('s'),
-                case['type'], case['stamps'], case['t0'], case.get('phase')))
+                case['type'], case['stamps'], case['t0'], case.get('phase'), case.get('layout')))
     stats['ode_solves'] = len(ladder) * len(stamps)
     return dict(viol=list(first.values()), key=key, nontrivial=not coning_zero, stats=stats)
